@@ -62,7 +62,10 @@ class Runner:
         ns = {}
         for i, (b, v) in enumerate(zip(case['bounds'], case['init'])):
             # bounds are installed after construction (see below), so that a held value may be invalid
-            ns[f'p{i}'] = param.Event() if i in self.events else param.Integer(default=v)
+            # `shared`: the instance has no Parameter objects of its own (per_instance=False), it dispatches
+            # through the class's ones
+            kw = {'per_instance': False} if case.get('shared') else {}
+            ns[f'p{i}'] = param.Event(**kw) if i in self.events else param.Integer(default=v, **kw)
         self.cls = type('D', (param.Parameterized,), ns)
         # the same programs run on an instance or on the class itself (class-level watchers and assignment)
         self.on_class = case.get('level') == 'class'
@@ -161,10 +164,13 @@ class Runner:
                                                           onlychanged=w['onlychanged'], queued=w['queued'],
                                                           precedence=w['precedence'])
         else:
-            wo = self.obj.param.watch(self.cbs[cbid], [self.names[i] for i in w['params']],
-                                      what=SLOTS[w.get('what', 0)],
-                                      onlychanged=w['onlychanged'], queued=w['queued'],
-                                      precedence=w['precedence'])
+            # a negative precedence is what the library's own watchers have (depends(), references): the public
+            # `watch` refuses it, the internal `_watch` is what those callers use
+            reg = self.obj.param._watch if w['precedence'] < 0 else self.obj.param.watch
+            wo = reg(self.cbs[cbid], [self.names[i] for i in w['params']],
+                     what=SLOTS[w.get('what', 0)],
+                     onlychanged=w['onlychanged'], queued=w['queued'],
+                     precedence=w['precedence'])
         self.wobjs.setdefault(wid, []).append(wo)
         self.wall.append((wid, wo))
 
@@ -350,18 +356,21 @@ def gen_case(rng, prop, max_params=4, max_watchers=5, faults=False, size=8):
     for i in events:
         bounds[i], init[i] = [0, 1], 0
     level = 'class' if rng.random() < 0.2 else 'instance'
+    # an instance that shares its Parameter objects with the class (per_instance=False); Parameter attributes
+    # then belong to the class's dispatcher, so attribute watchers are left out of these cases
+    shared = level == 'instance' and rng.random() < 0.15
     nb = rng.randint(0, 4)
     state = {'next_wid': 0, 'shared': set(), 'made': []}
 
     def mk_watcher(body_idx, rank_limit=None):
         ps = rng.sample(range(n), rng.randint(1, min(n, 3)))
         w = {'id': state['next_wid'], 'params': ps, 'onlychanged': rng.random() < 0.6,
-             'queued': rng.random() < 0.3, 'precedence': rng.choice([0, 0, 0, 1, 2, 5]), 'body': body_idx}
+             'queued': rng.random() < 0.3, 'precedence': rng.choice([0, 0, 0, 1, 2, 5, -1]), 'body': body_idx}
         w['cb'] = w['id']
-        if rng.random() < 0.15:
+        if rng.random() < 0.15 and not shared:
             # a watcher of a Parameter attribute; Event parameters only have `precedence`
             w['what'] = 1 if any(p in events for p in ps) else rng.choice([1, 2])
-        elif rng.random() < 0.15:
+        elif rng.random() < 0.15 and w['precedence'] >= 0:
             w['kw'] = True      # registered with watch_values
         state['next_wid'] += 1
         return w
@@ -383,7 +392,7 @@ def gen_case(rng, prop, max_params=4, max_watchers=5, faults=False, size=8):
 
     def stmt(depth, limit, in_body):
         """limit: parameters < limit may be assigned"""
-        kinds = ['set'] * 5 + ['update'] * 2 + ['batch', 'discard', 'trigger', 'try', 'updateCtx', 'setSlot']
+        kinds = ['set'] * 5 + ['update'] * 2 + ['batch', 'discard', 'trigger', 'try', 'updateCtx'] + ([] if shared else ['setSlot'])
         if not in_body:
             kinds += ['watch', 'unwatch']
         elif rng.random() < 0.25:
@@ -486,7 +495,7 @@ def gen_case(rng, prop, max_params=4, max_watchers=5, faults=False, size=8):
         # several watchers of one (parameter, what) whose callbacks add and remove watchers of that same
         # list while it is being dispatched (one-shot watchers, self-replacing watchers …)
         p = rng.randrange(n)
-        what = rng.choice([0, 1] if p in events else [0, 1, 2])
+        what = 0 if shared else rng.choice([0, 1] if p in events else [0, 1, 2])
         bodies.append([])                         # index nb stays the empty body
         group = []
         for _ in range(rng.randint(2, 4)):
@@ -517,7 +526,7 @@ def gen_case(rng, prop, max_params=4, max_watchers=5, faults=False, size=8):
             st = {'s': 'setSlot', 'p': p, 'k': what, 'v': rng.choice([0, 1, 2, 3])} if what else \
                  {'s': 'set', 'p': p, 'v': rng.choice([1, 1, 0, 7]) if p in events else value()}
             program.insert(rng.randrange(len(program) + 1), st)
-    return {'prop': prop, 'level': level, 'events': events, 'bounds': bounds, 'init': init, 'watchers': watchers,
+    return {'prop': prop, 'level': level, 'shared': shared, 'events': events, 'bounds': bounds, 'init': init, 'watchers': watchers,
             'bodies': bodies, 'program': program}
 
 
